@@ -2,6 +2,7 @@ import GramModel.Lemmas.ArmsTie
 import GramModel.Lemmas.Print
 import GramModel.Lemmas.PrintDerives
 import GramModel.Lemmas.PrintLex
+import GramModel.Lemmas.ParsePrinted7
 
 /-!
 # C16 — printed terms read back as the same term (the printer side)
@@ -563,3 +564,51 @@ def C16_display_arms_tie_stmt : Prop :=
   Generated.printAnnotationFn = 1193392906 ∧ Generated.printGroupFn = 2283885570
 theorem C16_display_arms_tie : C16_display_arms_tie_stmt := by
   unfold C16_display_arms_tie_stmt; decide
+
+
+/-! ## Reading back: the parser model on the printed token sequence (completeness of the packrat functions)
+
+`PModel.frag` (Lemmas/ParsePrinted6.lean) is the fragment of the printable class without binders, arrows and
+definitions: leaves, holes, applications, negation, the nine binary operators, conditionals — with the parentheses the
+printer puts.  `PModel.srcOf I nm t` is the tree of the printed term as a *shape* (`PModel.shape` forgets source ranges
+only): printed names (interned by `I`), parenthesised operands flagged `group`, application chains right-nested as the
+packrat functions build them before re-association, every error list empty.  `PModel.kindP I` turns a tokenizer kind into a
+parser kind. -/
+
+/-- **The parse phase reads a printed term back** (fragment): on every token array whose kinds are the kinds the printer
+model prints for `t` (any source ranges), the parse phase of the parser model succeeds, consumes every token, is confident,
+records no error, and returns the tree of `t` — as a shape `srcOf I nm t`, and as a tree the parse tree of the whole token
+array (`SegT`: every node carries the exact range of its token segment).  Since PEG alternatives are ordered this includes
+that every alternative tried before the right one fails on the printed input. -/
+def C16_parse_printed_fragment_stmt : Prop :=
+  ∀ (toks : Array PModel.PTok) (I : List Char → Name) (nm : Name → List Char) (t : Tm),
+    PModel.frag t = true →
+    toks.toList.map (·.kind) = (PrintDerives.printKinds nm t).map (PModel.kindP I) →
+    ∃ r st, PModel.runParser toks = some (r, st) ∧ r.next = toks.size ∧ r.confident = true ∧
+      PModel.collectErrors r.term = [] ∧ PModel.shape r.term = PModel.srcOf I nm t ∧
+      PModel.SegT toks .term 0 toks.size r.term
+theorem C16_parse_printed_fragment : C16_parse_printed_fragment_stmt :=
+  fun toks I nm t h1 h2 => PModel.parse_printed_frag toks I nm t h1 h2
+
+/-- non-vacuity: `if f (g x) y then -(a + b) else c * 2` is in the fragment, and some token array has its printed kinds -/
+example : ∃ (toks : Array PModel.PTok) (t : Tm), PModel.frag t = true ∧
+    toks.toList.map (·.kind) = (PrintDerives.printKinds (fun n => [Char.ofNat (97 + n)]) t).map
+      (PModel.kindP (fun _ => 1)) :=
+  ⟨((PrintDerives.printKinds (fun n => [Char.ofNat (97 + n)])
+      (.ite (.app (.app (.var 5 0) (.app (.var 6 0) (.var 7 0))) (.var 8 0))
+        (.neg (.bin .sum (.var 0 0) (.var 1 0))) (.bin .prod (.var 2 0) (.lit 2)))).map
+      (fun k => (⟨PModel.kindP (fun _ => 1) k, ⟨0, 0⟩⟩ : PModel.PTok))).toArray,
+   .ite (.app (.app (.var 5 0) (.app (.var 6 0) (.var 7 0))) (.var 8 0))
+     (.neg (.bin .sum (.var 0 0) (.var 1 0))) (.bin .prod (.var 2 0) (.lit 2)),
+   by decide, by simp [Function.comp_def]⟩
+
+/-- The full statement (PENDING: proved above for `PModel.frag`; the packrat-level lemmas for binders, arrows and
+definitions — `binder_ok`, `binder_fail_close`, `ndpi_ok`, `let_ok`, `annot_jumbo`, `head_seq` — are proved in
+Lemmas/ParsePrinted*.lean, the induction cases for `lam`, `pi`, `letg` are not): the same for every printable term. -/
+def C16_parse_printed_stmt : Prop :=
+  ∀ (toks : Array PModel.PTok) (I : List Char → Name) (nm : Name → List Char) (t : Tm),
+    PrintDerives.noImplicitArrow t = true → PrintDerives.noNegLit t = true →
+    toks.toList.map (·.kind) = (PrintDerives.printKinds nm t).map (PModel.kindP I) →
+    ∃ r st, PModel.runParser toks = some (r, st) ∧ r.next = toks.size ∧ r.confident = true ∧
+      PModel.collectErrors r.term = [] ∧ PModel.shape r.term = PModel.srcOf I nm t ∧
+      PModel.SegT toks .term 0 toks.size r.term
